@@ -116,3 +116,233 @@ def is_const_fill(e, root):
     if n == "sodium_memzero" and e.args[0] == root:
         return True
     return False
+
+
+# ---------------------------------------------------------------------------------------------
+# E7 support: canonical "shapes" of terms and events, with parameter roles, for sibling agreement
+class Shaper:
+    """Maps path-local terms to role-based canonical shapes so that two sibling functions can be
+    compared on what they do rather than how they spell it. roles: {param index: role name};
+    rewrites: [(term, symbol)] replaced before shaping (e.g. (inlen - ABYTES) -> 'MLEN')."""
+
+    def __init__(self, prog, path, roles, rewrites=()):
+        self.prog = prog
+        self.p = path
+        self.fn = path.fn
+        self.roles = roles
+        self.rewrites = dict(rewrites)
+        self.load_addr = {}
+        for e in path.events:
+            if e.kind == "load" and e.res is not None and e.res[0] == "load":
+                self.load_addr[e.res] = e.addr
+        self.depth = 0
+
+    def ptr(self, t):
+        off = 0
+        var = False
+        if t in self.rewrites:
+            return self.rewrites[t]
+        if t[0] == "gep":
+            off, var = t[2], bool(t[3])
+            vs = tuple(sorted(str(self.shape(v)) for v, _s in t[3]))
+            base = t[1]
+        else:
+            vs = ()
+            base = t
+        if base in self.rewrites:
+            return (self.rewrites[base], off, vs)
+        r = base
+        if r[0] == "arg":
+            return (self.roles.get(r[1], "P%d" % r[1]), off, vs)
+        if r[0] == "alloca":
+            return (("L", self.fn.insts[r[1]].get("size", 0)), off, vs)
+        if r[0] == "g":
+            return (("G", r[1]), off, vs)
+        return (self.shape(r), off, vs)
+
+    def shape(self, t, d=0):
+        if t in self.rewrites:
+            return self.rewrites[t]
+        if d > 12:
+            return "..."
+        k = t[0]
+        if k == "c":
+            return ("c", t[1])
+        if k == "arg":
+            return self.roles.get(t[1], "P%d" % t[1])
+        if k in ("alloca", "g", "gep"):
+            return ("&",) + self.ptr(t)
+        if k == "call":
+            ins = self.fn.insts[t[1]]
+            r = self.prog.resolve_callee(self.fn, ins["callee"])
+            nm = r[1].sname if r[0] == "fn" else (r[1] if r[0] == "ext" else r[0])
+            for e in self.p.events:
+                if e.kind == "call" and e.res == t:
+                    return ("call", nm, tuple(self.shape(a, d + 1) for a in e.args))
+            return ("call", nm)
+        if k == "load":
+            a = self.load_addr.get(t)
+            return ("ld", self.ptr(a) if a is not None else "?")
+        if k == "havoc":
+            return "loopvar"
+        if k == "bin":
+            a, b = self.shape(t[2], d + 1), self.shape(t[3], d + 1)
+            if t[1] in ("add", "and", "or", "xor", "mul") and str(a) > str(b):
+                a, b = b, a
+            return (t[1], a, b)
+        if k == "icmp":
+            return ("icmp", t[1], self.shape(t[2], d + 1), self.shape(t[3], d + 1))
+        if k == "not":
+            return ("not", self.shape(t[1], d + 1))
+        if k == "cast":
+            return self.shape(t[2], d + 1)      # width changes are not behaviourally relevant here
+        if k == "select":
+            return ("select", self.shape(t[1], d + 1), self.shape(t[2], d + 1), self.shape(t[3], d + 1))
+        if k == "op":
+            return ("op", t[1]) + tuple(self.shape(x, d + 1) for x in t[2:] if isinstance(x, tuple))
+        return (k,)
+
+    def event(self, e):
+        if e.kind == "call":
+            return ("call", e.callee_name() or e.callee[0], tuple(self.shape(a) for a in e.args))
+        if e.kind == "store":
+            return ("store", self.ptr(e.addr), self.shape(e.val), e.size)
+        if e.kind == "fact":
+            return ("fact", self.shape(e.term), e.truth)
+        return (e.kind,)
+
+
+# ---------------------------------------------------------------------------------------------
+# checklist obligations: "at every exit of this kind, these checks were executed and passed"
+def _outcome_holds(p, e, conj, outcome):
+    if e.res is None:
+        return False
+    z = p.facts.zeroness(e.res)
+    if outcome in ("Z", "NZ"):
+        if z == outcome:
+            return True
+        for t, c in conj:
+            if t == e.res:
+                if c == outcome:
+                    return True
+                if isinstance(c, tuple) and c[0] == "EQ":
+                    if (c[1] == 0) == (outcome == "Z"):
+                        return True
+        return False
+    if isinstance(outcome, tuple) and outcome[0] == "EQ":
+        return call_has_value(p, e, conj, outcome[1])
+    return False
+
+
+def find_checks(p, conj, checks, binding=None, start=0):
+    """checks: [(callee source name, outcome, {arg index: ('param', i) | ('var', name)})].
+    Returns a binding dict {var: root} under which every check has a matching passed call on the
+    path (in any order), or None. Also returns the index of the first missing check."""
+    binding = dict(binding or {})
+
+    def rec(k, b):
+        if k == len(checks):
+            return b
+        name, outcome, argc = checks[k]
+        for e in p.calls(name):
+            if not _outcome_holds(p, e, conj, outcome):
+                continue
+            b2 = dict(b)
+            ok = True
+            for ai, want in argc.items():
+                if ai >= len(e.args):
+                    ok = False
+                    break
+                r = T.root(e.args[ai])
+                if want[0] == "param":
+                    if r != ("arg", want[1]):
+                        ok = False
+                        break
+                elif want[0] == "var":
+                    if want[1] in b2:
+                        if b2[want[1]] != r:
+                            ok = False
+                            break
+                    else:
+                        b2[want[1]] = r
+            if not ok:
+                continue
+            res = rec(k + 1, b2)
+            if res is not None:
+                return res
+        return None
+
+    full = rec(0, binding)
+    if full is not None:
+        return full, None
+    # diagnose: first check that cannot be matched on its own
+    for k, (name, outcome, argc) in enumerate(checks):
+        if rec_single(p, conj, checks[k]) is None:
+            return None, k
+    return None, 0
+
+
+def rec_single(p, conj, check):
+    name, outcome, argc = check
+    for e in p.calls(name):
+        if not _outcome_holds(p, e, conj, outcome):
+            continue
+        ok = True
+        for ai, want in argc.items():
+            if ai >= len(e.args):
+                ok = False
+                break
+            if want[0] == "param" and T.root(e.args[ai]) != ("arg", want[1]):
+                ok = False
+                break
+        if ok:
+            return e
+    return None
+
+
+def describe_check(c, fn):
+    name, outcome, argc = c
+    a = []
+    for ai, want in sorted(argc.items()):
+        if want[0] == "param":
+            a.append("arg%d=%s" % (ai, fn.params[want[1]]["name"]))
+        else:
+            a.append("arg%d=%s" % (ai, want[1]))
+    oc = {"Z": "== 0", "NZ": "!= 0"}.get(outcome, "== %s" % (outcome[1] if isinstance(outcome, tuple) else outcome))
+    return "%s(%s) %s" % (name, ", ".join(a), oc)
+
+
+def exits_returning(prog, fn, kind, **kw):
+    """(path, conj) pairs for exits that may return zero ('Z'), may return non-zero ('NZ'),
+    or may return a given value ('EQ', v)"""
+    for p in paths(prog, fn, **kw):
+        if p.kind != "ret" or p.ret is None:
+            continue
+        if kind == "Z":
+            if p.may_return_zero():
+                for conj in success_conjunctions(p):
+                    yield p, conj
+        elif kind == "NZ":
+            if p.may_return_nonzero():
+                yield p, []
+        else:
+            v = kind[1]
+            iv = p.facts.interval(p.ret)
+            if p.ret[0] == "c":
+                if p.ret[1] == v & ((1 << p.ret[2]) - 1):
+                    yield p, []
+            elif iv is None or iv[0] <= v <= iv[1]:
+                yield p, []
+
+
+def checklist(chk, rule, prog, fn, kind, checks, what, **kw):
+    n = 0
+    for p, conj in exits_returning(prog, fn, kind, **kw):
+        n += 1
+        b, missing = find_checks(p, conj, checks)
+        ok = b is not None
+        chk.ob(rule, fn, what, ok, loc=fn.loc(p.end_iid),
+               detail=("all of: " + "; ".join(describe_check(c, fn) for c in checks)) if ok else
+               "missing on this path: " + describe_check(checks[missing], fn),
+               path=None if ok else p, key="%s %s" % (rule, fn.sname))
+    return n
